@@ -1,4 +1,5 @@
 import TongoProofs.Lemmas.TlbPrims
+import TongoProofs.Lemmas.TlbStack
 import TongoGen.TlbTypes
 import TongoGen.IntTypes
 /-! # C03 — TL-B values survive encode/decode for every type the library ships
@@ -196,12 +197,15 @@ theorem msgaddress_roundtrip : PrimOK .msgAddress := primOK_msgAddress
 theorem snake_roundtrip : PrimOK .snake := primOK_snake
 theorem wallet_payload_roundtrip : PrimOK .payloadV1toV4 := primOK_payloadV1toV4
 
-/-- **vmstack_convention**: `decode (encode s) = ok s.reverse` (arguments listed top-first, results bottom-first).
-Stated; not proved in Lean. The model implements the convention (putStackListItems / getStackListItems) and the
-harness checks it on the Go code (`go.rt tlb.VmStack` expects the reversed list) and against the model. -/
-def VmStackConvention (env : Env) (e : Ty) : Prop :=
-  ∀ fuel (vs : List Val) b', encode env fuel (.vmStack e) (Val.list vs) Builder.empty = .ok b' →
-    ∃ rest, decode env fuel (.vmStack e) (Slice.ofCell b'.toCell) = .ok (Val.list vs.reverse, rest)
+/-- **vmstack_convention**: `decode (encode s) = ok s.reverse` — a VM stack given top-first (the way arguments are
+listed for `RunSmcMethod`) reads back bottom-first (the way results are returned), for every element type that is
+well formed and every stack of in-domain values with fewer than 2^24 entries. -/
+theorem vmstack_convention (env : Env) (hEnv : EnvWF env) (e : Ty) (hw : wfb env e = true) (fuel : Nat) (v : Val)
+    (hd : inDomStack env fuel e v = true) (hlen : Prim.valLen v < 2 ^ 24) (b' : Builder)
+    (he : encode env (fuel + 1) (.vmStack e) v Builder.empty = .ok b') :
+    ∃ rest, decode env (fuel + 1) (.vmStack e) (Slice.ofCell b'.toCell) =
+      .ok (Val.list (Val.toList v).reverse, rest) :=
+  vmstack_roundtrip hEnv e hw fuel v hd hlen b' he
 
 /-! ## Integer families (translator X2) -/
 
